@@ -40,8 +40,9 @@ def close(a, b, atol=TOL_P, rtol=TOL_P_REL):
 
 
 def pf_tol(sn_mva):
-    """tolerance_mva such that the p.u. criterion stays tight for any net.sn_mva"""
-    return 1e-10 / max(1.0, sn_mva / 100.0)
+    """tolerance_mva for an absolute accuracy of 1e-9 MVA: the solver compares the p.u. mismatch (base net.sn_mva)
+    with tolerance_mva, so the effective tolerance in MVA is tolerance_mva * sn_mva"""
+    return 1e-9 / sn_mva
 
 
 @contextlib.contextmanager
